@@ -26,10 +26,15 @@ TOKEN_CHARS = set("0123456789ABCDEFGHIJKLMNOPQRSTUVWXYZ"
 NAMES = ["a", "field", "a b", 'q"uo"te', "semi;colon", "back\\slash",
          "dbl\\\\back", "\u00e9t\u00e9", "\u540d\u524d", "x=y", " lead",
          "trail ", "a'b", "tab\tx", "\U0001f600", 'mix "; \\ \u00e9', "",
-         "k%22v", "name*", "\\\"", "a\u00a0", "UPPER", "a,b", "(c)"]
+         "k%22v", "name*", "\\\"", "a\u00a0", "UPPER", "a,b", "(c)",
+         # names ending in backslashes / backslash-quote mixtures: rendered
+         # as ...\\\\" in front of the next parameter (the class of the former
+         # finding param-backslash-before-next-param)
+         "trail\\", "two\\\\", "\\", 'q"\\', 'x\\"', "semi;\\", 'a"; b="\\']
 FILENAMES = ["f.txt", "my file.bin", 'q"uote.png', "se;mi.txt", "b\\s.txt",
              "\u00fc\u0148\u00ed.dat", "C:\\dir\\x.doc", "a=b.c",
-             "\u6587\u4ef6.pdf", "..\\..\\up", "trail.", " x "]
+             "\u6587\u4ef6.pdf", "..\\..\\up", "trail.", " x ",
+             "C:\\dir\\", 'e"\\', "\\\\"]
 CTYPES = [None, None, "text/plain", "application/octet-stream", "image/png",
           "text/plain; charset=utf-8", "application/x-custom+json",
           "Text/Plain"]
@@ -583,6 +588,16 @@ def corr_units(ctx, cases):
                                        "name", "filename", "\u00e9", "\t"])
                            for _ in range(rng.randrange(0, 14)))
         lines.append(line)
+    # the splitter around backslashes: inside a quoted string a backslash
+    # escapes the next character, outside it is an ordinary character
+    lines += ['form-data; name="x\\\\"; filename="f"',
+              'form-data; name="x\\"; filename="f"',
+              'form-data; name="x\\\\\\"; filename="f"',
+              'form-data; name=x\\"; filename="f"',
+              'form-data; name=x\\; filename="f"',
+              'form-data; name=\\"a;b\\"; filename=c', 'a\\";name="c"',
+              'x; name="a;b\\', 'x; name="a;b\\\\', 'x;name=\\;filename=y',
+              'form-data; name="\\\\"; filename="\\\\"; boundary="\\""']
     for line in lines:
         key, pdict = parse_header(line)
         cases.append(("run_parse_header %s %s" % (
@@ -631,6 +646,9 @@ def classify(ctx, parts, got, boundary, detail):
         if hv[:2] != wt[:2]:
             name = part[0]
             if name.endswith("\\") and part[1] is not None:
+                # a name ending in a backslash in front of a filename
+                # parameter (a known finding until _parseparam was
+                # repaired; the class keeps its key)
                 key = "param-backslash-before-next-param"
             else:
                 key = "name-or-filename-differs"
@@ -723,14 +741,13 @@ def monitor(ctx):
         boundary = gen_boundary(rng)
         nparts = rng.randrange(1, maxparts + 1)
         parts = gen_parts(rng, boundary, nparts, 64, clean=True)
-        # the trailing-backslash name before a filename parameter is a
-        # separate (reported) class; keep it rare
         monitor_case(ctx, boundary, parts, rng.random() < 0.5,
                      rng.random() < 0.5, rng.random() < 0.5,
                      rng.randrange(2), "small")
     # every name / filename of the pool, alone and before a filename
-    for name in NAMES + ["trail\\"]:
-        for filename in [None] + FILENAMES[:4 if ctx.quick else None]:
+    for name in NAMES:
+        for filename in [None] + (
+                FILENAMES[:3] + FILENAMES[-3:] if ctx.quick else FILENAMES):
             monitor_case(ctx, b"BnD", [(name, filename, None, b"v\r\n--Bn")],
                          True, True, True, 0, "names", blocks=[0, 1, 5, 64])
     # sizes around the spill threshold and the line limit (monitor only)
@@ -914,7 +931,9 @@ def run(ctx):
     return ctx.finish(
         "correspondence: random RFC 7578 bodies (1-3 parts quick, 1-6 "
         "thorough; names/filenames from a pool with spaces, quotes, "
-        "semicolons, backslashes, non-ASCII; contents from the adversarial "
+        "semicolons, backslashes (also at the end of a name in front of the "
+        "filename parameter, backslash-quote mixtures), non-ASCII; contents "
+        "from the adversarial "
         "alphabet {CR, LF, CRLF, -, --, dash-boundary prefixes, boundary "
         "without dashes, near copies --bX/--b-/--b--x at line starts, NUL, "
         "0xFF, space}, sizes 0..64; RFC 2046 boundaries of length 1..70), "
